@@ -48,7 +48,7 @@ ASSUMPTIONS = [
 ]
 REAL = ["BaseRunner.run / stop_runner_loop / on_stop", "ThreadRunner._on_stop / _kill_and_reroute / runner_loop_iteration", "orchestrators", "brokers", "DistributedInvocation.run"]
 STUBBED = ["signal delivery", "thread scheduling", "clock", "uuid4"]
-PROBES = ["stop_with_pending", "stop_with_running", "stop_with_waiting_parent", "stop_between_claim_and_thread_start", "stop_idle", "kill_and_reroute"]
+PROBES = ["thread_start_failure", "stop_with_pending", "stop_with_running", "stop_with_waiting_parent", "stop_between_claim_and_thread_start", "stop_idle", "kill_and_reroute"]
 
 
 def plan(tier: str) -> list[dict]:
@@ -88,6 +88,9 @@ def run(seed: int, params: dict, replay: dict | None = None) -> dict:
     viol: list[dict] = []
     with Deployment(seed, stack, n_runners, policy=policy, policy_arg=parg, schedule=schedule, max_steps=300_000, max_time=90.0, conf={"max_threads": slots}) as d:
         sim = d.sim
+        if rng.random() < 0.25:
+            # buggify: "can't start new thread" for the n-th task thread of the run
+            sim.thread_start_failures = {rng.randint(1, 4)}
         d.register(simtasks.prog, max_retries=2)
         runner = d.runners["r1"]
         rid = runner.runner_id
@@ -217,6 +220,8 @@ def run(seed: int, params: dict, replay: dict | None = None) -> dict:
                         viol.append({"signature": f"C11/{stack}/not-requeued/{s}/kind={kind}", "message": f"{w.alias(inv)} is {s}, unowned, but not in the queue after the stop (queue {[w.alias(q) for q in queue]}; stop site {info['site']}, step {K})"})
                 else:
                     viol.append({"signature": f"C11/{stack}/left-unavailable/{s}/kind={kind}", "message": f"{w.alias(inv)} is {s} after the stop: neither final nor available (stop site {info['site']}, step {K})"})
+        if st.get("fault.thread_start_failure"):
+            st["probe.thread_start_failure"] = st["fault.thread_start_failure"]
         nontrivial = bool(st.get("probe.stop_with_pending") or st.get("probe.stop_with_running") or st.get("probe.stop_with_waiting_parent"))
         common["sched_hash"] = f"{info['site']}:{common['sched_hash']}"
         common.update(
